@@ -126,6 +126,15 @@ def decode(wire, eof, method='GET'):
     d.fields = parse_field_lines(head[1:])
     d.header_len = end
     body = wire[end:]
+    if 100 <= d.status < 200 and d.status != 101 and body[:5] == b'HTTP/':
+        # an interim response: the answer to the request is what follows (RFC 7231 6.2)
+        inner = decode(body, eof, method)
+        inner.interim = getattr(inner, 'interim', 0) + 1
+        if inner.header_len is not None:
+            inner.header_len += end
+        if inner.extent is not None:
+            inner.extent += end
+        return inner
     te = d.field('transfer-encoding')
     cl = d.field('content-length')
     conn = (d.field('connection') or '').lower()
